@@ -46,16 +46,28 @@ ezc3d::c3d::c3d(const std::string &filePath):
         throw std::ios_base::failure("Could not open the c3d file");
 
     // Read all the section
+#ifdef MELUND_EZC3D_VERIF
+    MELUND_EZC3D_VERIF_HOOK(10, 0, 0);
+#endif
     _header = std::shared_ptr<ezc3d::Header>(new ezc3d::Header(*this));
+#ifdef MELUND_EZC3D_VERIF
+    MELUND_EZC3D_VERIF_HOOK(11, 0, 0);
+#endif
     _parameters = std::shared_ptr<ezc3d::ParametersNS::Parameters>(new ezc3d::ParametersNS::Parameters(*this));
     // header may be inconsistent with the parameters, so it must be update to make sure sizes are consistent
     updateHeader();
 
     // Now read the actual data
+#ifdef MELUND_EZC3D_VERIF
+    MELUND_EZC3D_VERIF_HOOK(12, 0, 0);
+#endif
     _data = std::shared_ptr<ezc3d::DataNS::Data>(new ezc3d::DataNS::Data(*this));
 
     // Close the file
     close();
+#ifdef MELUND_EZC3D_VERIF
+    MELUND_EZC3D_VERIF_HOOK(13, 0, 0);
+#endif
 }
 
 ezc3d::c3d::~c3d()
@@ -75,15 +87,30 @@ void ezc3d::c3d::write(const std::string& filePath) const
     std::fstream f(filePath, std::ios::out | std::ios::binary);
 
     // Write the header
+#ifdef MELUND_EZC3D_VERIF
+    MELUND_EZC3D_VERIF_HOOK(20, 0, 0);
+#endif
     this->header().write(f);
 
     // Write the parameters
+#ifdef MELUND_EZC3D_VERIF
+    MELUND_EZC3D_VERIF_HOOK(21, 0, 0);
+#endif
     this->parameters().write(f);
 
     // Write the data
+#ifdef MELUND_EZC3D_VERIF
+    MELUND_EZC3D_VERIF_HOOK(22, 0, 0);
+#endif
     this->data().write(f);
 
+#ifdef MELUND_EZC3D_VERIF
+    MELUND_EZC3D_VERIF_HOOK(23, 0, 0);
+#endif
     f.close();
+#ifdef MELUND_EZC3D_VERIF
+    MELUND_EZC3D_VERIF_HOOK(24, f.fail() ? 1 : 0, 0);
+#endif
 }
 
 void ezc3d::c3d::readFile(unsigned int nByteToRead, char * c, int nByteFromPrevious,
@@ -92,6 +119,9 @@ void ezc3d::c3d::readFile(unsigned int nByteToRead, char * c, int nByteFromPrevi
     if (pos != 1)
         this->seekg (nByteFromPrevious, pos); // Move to number analogs
     this->read (c, nByteToRead);
+#ifdef MELUND_EZC3D_VERIF
+    MELUND_EZC3D_VERIF_HOOK(1, nByteToRead, this->fail() ? 1 : 0);
+#endif
     c[nByteToRead] = '\0'; // Make sure last char is NULL
 }
 
